@@ -215,6 +215,8 @@ pub struct Report {
     pub inconclusive: Vec<String>,
     replay_case: Option<(String, Value)>,
     pub level: &'static str,
+    /// output lines, printed by finish() (stdout may be redirected while a check runs)
+    pub out: Vec<String>,
 }
 
 pub fn digest_of<T: Serialize>(v: &T) -> u64 {
@@ -296,6 +298,7 @@ impl Report {
             inconclusive: vec![],
             replay_case,
             level: "exploration",
+            out: vec![],
         }
     }
 
@@ -349,8 +352,8 @@ impl Report {
         } else {
             self.write_replay(sub, case, reason)
         };
-        println!("VIOLATION property={} replay={}", self.ctx.id, path.display());
-        println!("  check={sub} reason={}", reason.replace('\n', " | "));
+        self.out.push(format!("VIOLATION property={} replay={}", self.ctx.id, path.display()));
+        self.out.push(format!("  check={sub} reason={}", reason.replace('\n', " | ")));
         self.violations.push(Violation {
             sub: sub.to_string(),
             reason: reason.to_string(),
@@ -371,7 +374,7 @@ impl Report {
                     Ok(c) => {
                         stats.evaluations += 1;
                         match run_case(test, &c) {
-                            Ok(_) => println!("replay: case passes ({})", sub),
+                            Ok(_) => self.out.push(format!("replay: case passes ({})", sub)),
                             Err(f) => {
                                 // strict: known findings are still failures in replay mode
                                 self.record_violation(sub, &c, &f.msg);
@@ -415,12 +418,12 @@ impl Report {
                         stats.known_hits.insert(format!("{} ({})", k.what, k.signature));
                     } else {
                         let p = self.write_replay(sub, &c, &fl.msg);
-                        println!("VIOLATION property={} replay={}", self.ctx.id, p.display());
-                        println!(
+                        self.out.push(format!("VIOLATION property={} replay={}", self.ctx.id, p.display()));
+                        self.out.push(format!(
                             "  check={sub} (regression corpus {}) reason={}",
                             f.display(),
                             fl.msg.replace('\n', " | ")
-                        );
+                        ));
                         self.violations.push(Violation {
                             sub: sub.to_string(),
                             reason: fl.msg,
@@ -716,6 +719,9 @@ impl Report {
     /// Writes the evidence file and terminates the process with the contract's exit code.
     pub fn finish(self) -> ! {
         let wall = self.start.elapsed().as_secs_f64();
+        for l in &self.out {
+            println!("{l}");
+        }
         for k in &self.known_hits {
             println!("KNOWN-FINDING: property={} {}", self.ctx.id, k);
         }
